@@ -70,15 +70,15 @@ def _entropy(rp, st):
 @binding("KL")
 def _kl(rp, st):
     a = st["a"]
-    val = np.asarray(rp.heap[a["i"]].kl_divergence(rp.heap[a["j"]]))
-    exp = to_float(st["ret"]["ln"])
+    val = rp.heap[a["i"]].kl_divergence(rp.heap[a["j"]])
 
-    def chk(_exp):
-        cmp_lin("return", val, exp)
+    def chk(val, exp):
+        val = np.asarray(val)
+        cmp_lin("return", val, to_float(exp["ln"]))
         # sign clause of C13: KL >= 0 (decided on the exact value, reported against the code's value)
         if np.any(val < -1e-9):
             raise Mismatch("return.sign", val.tolist(), ">= 0", "negative KL divergence")
-    return None, ("custom", chk)
+    return None, ("custom", val, chk)
 
 
 @binding("Update")
@@ -166,14 +166,14 @@ def _int_log_cond_y(rp, st):
 def _info(rp, st):
     a = st["a"]
     c, p = rp.heap[a["i"]], rp.heap[a["j"]]
-    val = np.asarray(getattr(c, a["kind"])(p))
-    exp = to_float(st["ret"]["ln"])
+    val = getattr(c, a["kind"])(p)
 
-    def chk(_exp):
-        cmp_lin("return", val, exp)
+    def chk(val, exp):
+        val = np.asarray(val)
+        cmp_lin("return", val, to_float(exp["ln"]))
         if a["kind"] == "mutual_information" and np.any(val < -1e-9):
             raise Mismatch("return.sign", val.tolist(), ">= 0", "negative mutual information")
-    return None, ("custom", chk)
+    return None, ("custom", val, chk)
 
 
 @binding("UpdateSigma")
@@ -215,10 +215,12 @@ def _integrate(rp, st):
     else:
         for nm, cs in (("A", a["A"]), ("B", a["B"]), ("C", a["C"]), ("D", a["D"])):
             kw.update(_coef_kwargs(cs, f"{nm}_mat", f"{nm.lower()}_vec"))
-    val = np.asarray(o.integrate(key, **kw))
-    exact = bool(rp.flags.get(a["i"], {}).get("exact")) and _all_integer([a["A"], a["B"], a["C"], a["D"]])
+    val = o.integrate(key, **kw)
+    exact = bool(rp.flags.get(a["i"], {}).get("exact")) and _all_integer([a["A"], a["B"], a["C"], a["D"]]) \
+        and rp.mode == "eager"
 
-    def chk(exp):
+    def chk(val, exp):
+        val = np.asarray(val)
         mass = np.exp(np.asarray(to_float(exp["ln"]), dtype=float))
         c = np.asarray(to_float(exp["c"]), dtype=float)
         e = mass.reshape((-1,) + (1,) * (c.ndim - 1)) * c
@@ -227,16 +229,17 @@ def _integrate(rp, st):
             rp.count("exact_mode_bit_exact_comparisons")
         if exact and not np.array_equal(val, e):
             raise Mismatch("return.exact", val.tolist(), e.tolist(), "exact mode: integer inputs, result not bit-exact")
-    return None, ("custom", chk)
+    return None, ("custom", val, chk)
 
 
 @binding("IntegrateLogFactor")
 def _integrate_log_factor(rp, st):
     a = st["a"]
-    val = np.asarray(rp.heap[a["i"]].integrate("log u(x)", factor=rp.heap[a["j"]]))
+    val = rp.heap[a["i"]].integrate("log u(x)", factor=rp.heap[a["j"]])
 
-    def chk(exp):
+    def chk(val, exp):
+        val = np.asarray(val)
         mass = np.exp(np.asarray(to_float(exp["ln"]), dtype=float))
         e = mass * (np.asarray(to_float(exp["c"]), dtype=float) + np.asarray(to_float(exp["lnc"]), dtype=float))
         cmp_lin("return", val, e)
-    return None, ("custom", chk)
+    return None, ("custom", val, chk)
